@@ -440,6 +440,8 @@ def r1_key_normalisation(rep, src):
 
     def items_hook(it, args, kw):
         obj = args[0]
+        if isinstance(obj, H.Ref) and it.h.objs[obj.name]['__class__'] == 'dict':
+            return it.h.new_list(list(it.h.objs[obj.name]['entries']))         # a builtin dictionary: its own items
         fi = heap.module.method('Deb822Dict', '__iter__')
         gi = heap.module.method('Deb822Dict', '__getitem__')
         keys = it.seq(it.call(H.Closure(fi.node, {}, obj, fi.cls), []))
@@ -467,6 +469,34 @@ def r1_key_normalisation(rep, src):
             rep.ok('C09.R2', fcopy.site, what, 'same order and values, separate object')
     except H.Raised as x:
         rep.fail('C09.R2', fcopy.site, what, 'raises %s (line %d)' % (x.exc, x.lineno), where=fcopy.where)
+    # the constructor on a sequence of pairs whose keys repeat, exactly and in another case: the pairs are assigned in sequence (first
+    # spelling kept, last value wins) -- also when an exact repetition stands between two case variants
+    finit = heap.module.method('Deb822Dict', '__init__')
+    rep.saw_func(finit)
+    for label, pairs, worder, wvals in (
+            ('pairs with a key repeated exactly around a case variant', [('Alpha', '1'), ('ALPHA', '2'), ('Beta', '3'), ('Alpha', '4')], ['Alpha', 'Beta'], {'Alpha': '4', 'Beta': '3'}),
+            ('pairs with distinct keys', [('Beta', '1'), ('Alpha', '2')], ['Beta', 'Alpha'], {'Beta': '1', 'Alpha': '2'})):
+        heap, me0, d0, lst0, table0 = world()
+        heap.hooks['.items'] = items_hook
+        heap.hooks['_AutoDecoder'] = lambda it, a, k: it.h.alloc('Decoder', {})
+        heap.hooks['super'] = lambda it, a, k: ('super',)
+        itp = H.Interp(heap)
+        fresh = heap.alloc('Deb822Dict', {}, name='@fresh')
+        what = 'Deb822Dict(%s)' % label
+        try:
+            itp.call(H.Closure(finit.node, {}, fresh, finit.cls), [heap.new_list([tuple(p_) for p_ in pairs])])
+            order2, vals2, problems2 = state(heap, None, None, None, fresh)
+            bad = list(problems2)
+            if order2 != worder:
+                bad.append('keys are %s, assigning the pairs in sequence gives %s' % (order2, worder))
+            if vals2 != wvals:
+                bad.append('values are %r, assigning the pairs in sequence gives %r (the last pair of a name wins)' % (vals2, wvals))
+            if bad:
+                rep.fail('C09.R2', finit.site, what, '; '.join(bad), where=finit.where)
+            else:
+                rep.ok('C09.R2', finit.site, what, 'keys %s, values %r' % (order2, vals2))
+        except H.Raised as x:
+            rep.fail('C09.R2', finit.site, what, 'raises %s (line %d)' % (x.exc, x.lineno), where=finit.where)
     # case-insensitive string: hash and equality from the same lower-cased text, str() gives the original
     from .. import paths
     c = src.mod(UT)
